@@ -87,7 +87,8 @@ def convert(raw, sid, seed=0, mode="seq"):
         st = dict(st)
         st["w"] = (list(st["w"]) + [0] * TNR)[:TNR]
         steps.append(st)
-    return {"id": sid, "fam": "informers", "mode": mode, "seed": seed, "dims": [raw["ns"], raw["nr"], raw["no"]], "steps": steps}
+    return {"id": sid, "fam": "informers", "mode": mode, "seed": seed, "dims": [raw["ns"], raw["nr"], raw["no"]], "steps": steps,
+            "late": bool(raw.get("late"))}
 
 
 def ops_of(sc):
@@ -95,8 +96,8 @@ def ops_of(sc):
     for st in sc["steps"]:
         o = st["op"]
         t = o["t"]
-        if t == "sub":
-            out.append("sub(s%d,r%d)" % (o["s"], o["r"]))
+        if t in ("sub", "subx"):
+            out.append("%s(s%d,r%d)" % (t, o["s"], o["r"]))
         elif t == "add":
             out.append("add(s%d,%s)=h%d" % (o["s"], "own" if o["own"] else "plain", o["h"]))
         elif t == "addev":
